@@ -24,3 +24,10 @@ Print Assumptions C12_lex_error_positions.
 Example C12_nonvacuous :
   lex [34; 92; 120; 255; 255; 34]%N = LFail [] [(EStringEscape, 1%Z)].
 Proof. vm_compute. reflexivity. Qed.
+
+(* positions on the accepting side: every token and comment of an accepted input lies inside the file
+   (offset + length <= length of the text after the byte order mark), for every byte string *)
+Theorem C12_lex_item_positions : forall data items, lex data = LDone items ->
+  forall it, In it items -> i_off it + i_len it <= length (strip_bom data).
+Proof. exact lex_item_positions_lemma. Qed.
+Print Assumptions C12_lex_item_positions.
